@@ -232,11 +232,11 @@ impl BiasedRttPathSelector {
 //@- Some(network_path) == current
 //@+ opt_path_eq(Some(network_path), current)
 //@rwx A3 *
-//@- current_key\.is_none_or\(\|c\| key (<=?|>=?) c\)
-//@+ current_key.is_none_or(|c: Key| -> (o: bool) ensures o == key_@OP(\1)_spec(key, c) { key_@OP(\1)(&key, &c) })
+//@- current_key\.is_none_or\(\|(\w+)\| key (<=?|>=?) \1\)
+//@+ current_key.is_none_or(|\1: Key| -> (o: bool) ensures o == key_@OP(\2)_spec(key, \1) { key_@OP(\2)(&key, &\1) })
 //@rwx A3 *
-//@- best\.as_ref\(\)\.is_none_or\(\|\(_, b\)\| key (<=?|>=?) \*b\)
-//@+ best.as_ref().is_none_or(|p_: &(PathSelectionData<'_>, Key)| -> (o: bool) ensures o == key_@OP(\1)_spec(key, p_.1) { let b = &p_.1; key_@OP(\1)(&key, b) })
+//@- best\.as_ref\(\)\.is_none_or\(\|\(_, (\w+)\)\| key (<=?|>=?) \*\1\)
+//@+ best.as_ref().is_none_or(|p_: &(PathSelectionData<'_>, Key)| -> (o: bool) ensures o == key_@OP(\2)_spec(key, p_.1) { let \1 = &p_.1; key_@OP(\2)(&key, \1) })
 //@ins before 1
 //@- let current = ctx.current();
 //@| broadcast use time::time_axioms;
